@@ -154,8 +154,10 @@ def res(r):
 # Build step: scrape /repo -> Gen/*.v, make the cone, re-extract if needed
 # --------------------------------------------------------------------------
 FORBIDDEN = re.compile(
-    r"\b(Admitted|admit|Axiom|Axioms|Parameter|Parameters|Conjecture|Hypothesis|"
-    r"Unset\s+Guard|bypass_check|Admit\s+Obligations|type-in-type|impredicative-set)\b")
+    r"\b(Admitted|admit|give_up|Axiom|Axioms|Parameter|Parameters|Conjecture|Conjectures|"
+    r"Unset\s+Guard|Unset\s+Positivity|Unset\s+Universe|bypass_check|Admit\s+Obligations|"
+    r"type-in-type|impredicative-set)\b")
+SECTION_ONLY = re.compile(r"\b(Variable|Variables|Hypothesis|Hypotheses|Context)\b")
 
 
 def _strip_comments(src: str) -> str:
@@ -184,6 +186,15 @@ def grep_gate() -> list[str]:
                 # outright and use Variable only inside Section blocks.
                 for m in FORBIDDEN.finditer(src):
                     bad.append("%s: %s" % (os.path.join(root, f), m.group(0)))
+                # Variable / Hypothesis / Context are allowed inside a Section only
+                depth = 0
+                for m in re.finditer(r"\b(Section|End)\s+[A-Za-z_][A-Za-z0-9_']*\s*\.|\b(Variable|Variables|Hypothesis|Hypotheses|Context)\b", src):
+                    if m.group(1) == "Section":
+                        depth += 1
+                    elif m.group(1) == "End":
+                        depth -= 1
+                    elif depth <= 0:
+                        bad.append("%s: %s outside a section" % (os.path.join(root, f), m.group(2)))
     return bad
 
 
@@ -213,9 +224,7 @@ def cone_of(vfile: str) -> list[str]:
             continue
         seen.append(f)
         src = open(os.path.join(COQ, f)).read()
-        for m in re.finditer(r"From\s+Zorg\s+Require\s+(?:Import|Export)\s+([^.]*(?:\.[A-Za-z_][^.\s]*)*)\s*\.", src):
-            pass
-        for m in re.finditer(r"From\s+Zorg\s+Require\s+(?:Import|Export)\s+((?:[A-Za-z0-9_.]+\s*)+)\.\s", src):
+        for m in re.finditer(r"From\s+Zorg\s+Require\s+(?:Import|Export)\s+(.*?)\.(?=\s|$)", _strip_comments(src), re.S):
             for mod in m.group(1).split():
                 todo.append(mod.replace(".", "/") + ".v")
     return seen
@@ -259,7 +268,8 @@ def build(prop: str) -> BuildResult:
             run(["coq_makefile", "-f", "_CoqProject", "-o", "Makefile"], cwd=COQ)
         target = "Props/%s.vo" % prop
         # dependencies first
-        rc, out = run(["make", "-j16", target, "Extract/Engine.vo"], cwd=COQ, timeout=3000)
+        rc, out = run(["bash", "-c", "ulimit -s unlimited 2>/dev/null; make -j16 %s Extract/Engine.vo" % target],
+                      cwd=COQ, timeout=3000)
         br.log = out
         if rc != 0:
             br.ok = False
@@ -267,7 +277,8 @@ def build(prop: str) -> BuildResult:
             br.failed_target = m.group(1) if m else target
             return br
         # re-run coqc on the property file to capture Print Assumptions now
-        rc, out = run(["coqc", "-Q", ".", "Zorg", "Props/%s.v" % prop], cwd=COQ, timeout=1200)
+        rc, out = run(["bash", "-c", "ulimit -s unlimited 2>/dev/null; coqc -Q . Zorg Props/%s.v" % prop],
+                      cwd=COQ, timeout=1200)
         if rc != 0:
             br.ok, br.log, br.failed_target = False, out, "Props/%s.v" % prop
             return br
